@@ -65,6 +65,9 @@ func (c *ClientCodec) Decode(response []byte, context *core.ClientContext) (resu
 			res := resp.Result.([]interface{})
 			result = make([]interface{}, 0, len(res))
 			for i, r := range res {
+				if i >= n {
+					break // more results than declared return types: ignore the rest (as the hprose codec does)
+				}
 				data, _ := c.Codec.Marshal(r)
 				t := reflect2.Type2(context.ReturnType[i])
 				p := t.New()
